@@ -55,6 +55,11 @@ type errOther struct{ tag int }
 
 func (e errOther) Error() string { return fmt.Sprintf("injected reader failure %d", e.tag) }
 
+// tags >= 100 are failures that call themselves temporary (EINTR, EAGAIN, a
+// deadline): still failures of the reader, to be reported as such.
+func (e errOther) Temporary() bool { return e.tag >= 100 }
+func (e errOther) Timeout() bool   { return e.tag >= 100 }
+
 // ScanOp is the "scan" request of the line protocol.
 type ScanOp struct {
 	Op       string `json:"op"`
